@@ -207,7 +207,7 @@ func genHeaderEntries(t *rapid.T, n int, special bool, ctx Cfg) []string {
 			if class == "trailing-blank" {
 				nm += " "
 			}
-			add(nm, genValue(t, hdrValuePool, "hvalue"))
+			add(nm, genHeaderValue(t))
 		case "user-agent":
 			if seen["user-agent"] {
 				continue
@@ -266,7 +266,7 @@ func genHeaderEntries(t *rapid.T, n int, special bool, ctx Cfg) []string {
 				nm = alt
 			}
 			if rapid.Bool().Draw(t, "again-other-value") {
-				v2 := genValue(t, hdrValuePool, "hvalue")
+				v2 := genHeaderValue(t)
 				if strings.ToLower(v2) == strings.ToLower(v) {
 					v2 = v + "-2"
 				}
